@@ -19,7 +19,7 @@ def one_case(rng, idx):
         ops, expect = [], {}
         for k in range(rng.choice([5, 40, 200])):
             r = rng.randrange(ranks)
-            text = '%d:%d:%s' % (idx, k, rng.choice(WORDS))
+            text = '%d:%s:%d' % (idx, rng.choice(WORDS), k) if k % 4 else '%d:%d:%s' % (idx, k, rng.choice(WORDS))
             if mode == 'multi':
                 sub = rng.choice(subs)
                 ops.append('w %d %s %s' % (r, sub, text))
